@@ -1,6 +1,6 @@
 import numpy as np
 import hpgeom as hpg
-from .utils import is_integer_value
+from .utils import is_integer_value, _compute_bitshift
 import numbers
 
 
@@ -104,7 +104,12 @@ class GeomBase(object):
         pixels = self._render(nside_render=_nside, return_pixel_ranges=False)
 
         if self._nside_render is not None:
-            return hpg.upgrade_pixels(_nside, pixels, nside)
+            # All the children of the rendered pixels, in order.
+            # (hpg.upgrade_pixels rejects the last pixel of the sphere.)
+            bit_shift = _compute_bitshift(_nside, nside)
+            pixels = np.sort(np.asarray(pixels, dtype=np.int64))
+            return (np.left_shift(pixels, bit_shift)[:, np.newaxis] +
+                    np.arange(2**bit_shift, dtype=np.int64)[np.newaxis, :]).ravel()
         else:
             return pixels
 
@@ -135,7 +140,9 @@ class GeomBase(object):
             if pixel_ranges.size == 0:
                 # Nothing is rendered at nside_render (hpgeom cannot upgrade empty ranges).
                 return pixel_ranges
-            return hpg.upgrade_pixel_ranges(_nside, pixel_ranges, nside)
+            # The children of nest pixel range [a, b) are [a << shift, b << shift).
+            # (hpg.upgrade_pixel_ranges rejects a range ending at the last pixel.)
+            return np.left_shift(pixel_ranges, _compute_bitshift(_nside, nside))
         else:
             return pixel_ranges
 
